@@ -356,6 +356,8 @@ class Analyzer:
                 V.append(discharge(f"init:{name}", base, Or(*conds), self.timeout_ms))
         if "schema" in self.want:
             self._schema(enc, r)
+        if "rows" in self.want:
+            self._all_events(enc.pkg, r)
         if "complete" in self.want:
             self._complete(enc, r)
         if "store" in self.want:
@@ -401,6 +403,7 @@ class Analyzer:
         r.status = "accepted"
         base = A.base() + [c for c in B.base()]
         V = r.verdicts
+        self._all_events(pkg, r)
         ra, rb = A.exec.rows, B.exec.rows
         fa, fb = A.exec.faults, B.exec.faults
         if len(ra) != len(rb) or len(fa) != len(fb):
@@ -431,7 +434,11 @@ class Analyzer:
             V.append(v2)
         r.solver_seconds = sum(x.seconds for x in V)
         for v in V:
-            if v.status == "cex":
+            if v.status == "cex" and v.name == "all_events":
+                d = bundle_dir(self.prop, prog, v.name)
+                write_bundle(d, prog, pkg, {"obligation": v.name, "text": v.detail, "kind": "front-end fact (no event needed)"})
+                r.violations.append({"obligation": v.name, "text": v.detail, "replay": str(d)})
+            elif v.status == "cex":
                 self._confirm_selfcomp(prog, A, v, r)
             elif v.status in ("inconclusive", "vacuous"):
                 r.inconclusive.append((v.name, v.detail or v.status))
@@ -539,6 +546,24 @@ class Analyzer:
             v2 = discharge("absent_collection_fails_loudly", base_np + [Or(*missing)], Not(enc.cpp_fault(LOUD)), self.timeout_ms)
             V.append(v2)
 
+    def _all_events(self, pkg, r):
+        """Front-end fact behind 'for every input event' / 'split across jobs gives the same rows': the rendered job
+        configuration does not bound the number of events the framework hands to the per-event code."""
+        import re as _re
+        problems = []
+        for name, text in pkg.files.items():
+            if name.endswith("_cfg.py"):
+                for m in _re.finditer(r"maxEvents\s*=.*?int32\(\s*(-?\d+)\s*\)", text):
+                    if int(m.group(1)) >= 0:
+                        problems.append(f"{name}: process.maxEvents limits the job to {m.group(1)} events")
+            if name.endswith("_eljob.py") or name.endswith("JobOptions.py"):
+                for m in _re.finditer(r"(optMaxEvents|EvtMax|setMaxEvents)\W+\s*(-?\d+)", text):
+                    if int(m.group(2)) >= 0:
+                        problems.append(f"{name}: {m.group(1)} limits the job to {m.group(2)} events")
+        v = Verdict("all_events", "holds" if not problems else "cex", "; ".join(problems))
+        v.frontend_fact = True
+        r.verdicts.append(v)
+
     def _complete(self, enc, r):
         "C02 front-end facts (decided by the encoder front end, not by the solver)."
         import re as _re
@@ -589,6 +614,8 @@ class Analyzer:
                     if g[2] != w[2][5:]:
                         ok, why = False, f"column {g[0]}: element type {g[2]} but the method's declared tree_type is {w[2][5:]}"
                         break
+                elif w[2] == "enum" and isinstance(g[2], str) and g[2].replace("::", ".") in enc.dm.enums:
+                    pass          # a column of the declared enum type
                 elif g[2] not in KIND_OK.get(w[2], (w[2],)):
                     ok, why = False, f"column {g[0]}: element type {g[2]} but the expression is {w[2]}"
                     break
@@ -611,7 +638,7 @@ class Analyzer:
         r.verdicts.append(v)
 
     def _confirm(self, prog, enc, v, r, patches):
-        if v.name in ("schema", "complete", "store_requests"):
+        if v.name in ("schema", "complete", "store_requests", "all_events"):
             d = bundle_dir(self.prop, prog, v.name)
             write_bundle(d, prog, enc.pkg, {"obligation": v.name, "text": v.detail, "kind": "front-end fact (no event needed)"})
             r.violations.append({"obligation": v.name, "text": v.detail, "replay": str(d)})
